@@ -2,6 +2,8 @@ package c08
 
 import (
 	"verifharness/envh"
+	"verifharness/fw"
+	"verifharness/rng"
 	"verifharness/sx"
 )
 
@@ -10,7 +12,111 @@ const nQuick, nThorough = 350, 6000
 var profile = envh.Profile{MaxHooks: 12, MaxReqs: 8, FailP: 40, BodyFailP: 60, IllegalP: 80, TaskHookP: 250, FloatP: 300,
 	TeardownP: 90, ControlP: 150, DestroyHooks: true}
 
-const rule = "random walks of 1..8 requests over 0..12 hooks (call and task hooks, weights in -300..300 with deliberate ties, 30% of call hooks " +
+// the points of the run cycle, in the order in which a walk DEPLOY, CONFIGURE, START_ACTIVITY, STOP_ACTIVITY visits them
+var cycle = []struct{ ev, src, dst string }{{"DEPLOY", "STANDBY", "DEPLOYED"}, {"CONFIGURE", "DEPLOYED", "CONFIGURED"},
+	{"START_ACTIVITY", "CONFIGURED", "RUNNING"}, {"STOP_ACTIVITY", "RUNNING", "CONFIGURED"}}
+
+func cycleMoments(k int) []string {
+	t := cycle[k]
+	return []string{"before_" + t.ev, "leave_" + t.src, "enter_" + t.dst, "after_" + t.ev}
+}
+
+// awaitGroupCase: SEVERAL calls awaited at ONE point (moment, weight) — 2..3 of them, each either started right
+// there (await = trigger, the default) or started at an earlier moment of the walk and awaiting that point — where
+// the calls take different times (one of them is SLOW: its probe takes 15..30 ms, everything else 0.3 ms) and one
+// of them may fail, critically or not, standing anywhere in the order in which the calls were registered. The
+// await barrier must hold for every one of them (nothing of the moment's remainder, and no finish marker, before
+// the slowest has returned), each result must be collected exactly there, and what a teardown finds still pending
+// must be cancelled. Plus a hook at a later weight of the same moment, and a teardown in half of the cases.
+func awaitGroupCase(r *rng.R) fw.Case {
+	k := r.N(len(cycle))
+	mi := r.N(4)
+	m := cycleMoments(k)[mi]
+	w := rng.Pick(r, []int{-20, -1, 0, 10})
+	// the points strictly before moment m in the walk
+	var earlier []string
+	for i := 0; i <= k; i++ {
+		for j, x := range cycleMoments(i) {
+			if i < k || j < mi {
+				earlier = append(earlier, x)
+			}
+		}
+	}
+	n := r.Range(2, 3)
+	slow := r.N(n)
+	failing := -1
+	if r.P(3, 4) {
+		failing = r.N(n)
+	}
+	critFail := r.P(2, 3)
+	fixed := r.N(n) // at least one member is started at the await point itself, so that its weight is visited
+	hooks := sx.L()
+	id := 0
+	nFloat := 0
+	for i := 0; i < n; i++ {
+		trig, tw := m, w
+		if i != fixed && len(earlier) > 0 && r.P(1, 2) {
+			trig, tw = rng.Pick(r, earlier), rng.Pick(r, []int{-5, 0, 3})
+			nFloat++
+		}
+		crit := r.Bool()
+		outs := sx.L()
+		if i == failing {
+			crit = critFail
+			for j := 0; j < 8; j++ {
+				outs.Add(sx.B(true))
+			}
+		}
+		dur := 0
+		if i == slow {
+			dur = r.Range(15, 30)
+		}
+		hooks.Add(sx.L(sx.I(id), sx.A("call"), sx.B(crit), sx.A(trig), sx.I(tw), sx.A(m), sx.I(w), outs, sx.I(0), sx.I(dur)))
+		id++
+	}
+	// the rest of the moment: a later weight of the same pass, and a probe at the end of the transition
+	lw := w + r.Range(1, 30)
+	if w < 0 && lw >= 0 {
+		lw = -1
+	}
+	if lw > w {
+		kind := "call"
+		if r.P(1, 3) {
+			kind = "task"
+		}
+		hooks.Add(sx.L(sx.I(id), sx.A(kind), sx.B(r.Bool()), sx.A(m), sx.I(lw), sx.A(m), sx.I(lw), sx.L()))
+		id++
+	}
+	hooks.Add(sx.L(sx.I(id), sx.A("call"), sx.B(false), sx.A("after_"+cycle[k].ev), sx.I(50), sx.A("after_"+cycle[k].ev), sx.I(50), sx.L()))
+	rng.Shuffle(r, hooks.List) // role order = the order in which calls of one trigger point are registered
+	reqs := sx.L()
+	for i := 0; i <= k; i++ {
+		reqs.Add(sx.L(sx.A("T"), sx.A(cycle[i].ev), sx.B(true), sx.B(false)))
+	}
+	if r.P(1, 2) {
+		reqs.Add(sx.L(sx.A("T"), sx.A(cycle[k].ev), sx.B(true), sx.B(false))) // again (or illegal by now)
+	}
+	tags := []string{"await-group", "slow-call"}
+	if r.P(1, 2) {
+		reqs.Add(sx.L(sx.A("D"), sx.B(true), sx.B(true), sx.B(r.P(9, 10))))
+		tags = append(tags, "teardown")
+	}
+	if failing >= 0 {
+		if critFail {
+			tags = append(tags, "critical-failures", "await-group-critical-failure")
+		} else {
+			tags = append(tags, "await-group-noncritical-failure")
+		}
+	}
+	if nFloat > 0 {
+		tags = append(tags, "floating-await")
+	}
+	return fw.Case{Input: sx.L(hooks, reqs, sx.I(r.Range(0, 2))).String(), Tags: tags}
+}
+
+const rule = "every fourth case an await group (2..3 calls awaited at one point, started there or earlier in the walk, one of them slow (15..30 ms), " +
+	"one of them failing critically / non-critically / none, in every registration order; a later weight of the same moment; teardown in half of them), " +
+	"every tenth a teardown class (see C10); otherwise random walks of 1..8 requests over 0..12 hooks (call and task hooks, weights in -300..300 with deliberate ties, 30% of call hooks " +
 	"await somewhere else: later weight / other moment / never / earlier weight; DESTROY hooks; teardowns); non-trivial = at least two hooks share a " +
 	"trigger moment with different weights or some call awaits away from its trigger, and >=3 requests; distinct by input text"
 
